@@ -55,6 +55,7 @@ def main(tier: str, seed: int, replay: str | None = None) -> int:
     rep.proof_stage("C03_core")     # unconditional soundness for the constraint-free fragment
     rep.proof_stage("C03_elim")     # ... and with elimination constraints over base-type alternatives
     rep.proof_stage("C03_sub")      # ... and for schemas with subtype constraints x <= A / x < A, incl. clause (iii)
+    rep.proof_stage("C03_conc")     # clause (iii) for CONCRETE targets/alternatives of any shape (compound, function types), strictness included
     rep.proof_stage("C03_gen")      # the main clause (witness, bounds, satisfiability) for ARBITRARY constraints
     rng = random.Random(seed)
     nh, npg = (12, 50) if tier == "quick" else (120, 100)
